@@ -131,6 +131,8 @@ class Facts:
         if lo is not None and lo >= 0:
             return True
         self.lin.append(q)
+        if not self._propagate():
+            return False
         # single-atom bound refinement:  c*x + d >= 0
         if len(q.terms) <= 2 and q.is_linear():
             items = [(m, c) for m, c in q.terms.items() if m != ()]
@@ -184,6 +186,53 @@ class Facts:
                 f.add_conditional(e[1], e[2])
         return f
 
+    def _propagate(self):
+        """interval propagation over the linear facts: tighten single-atom bounds (few rounds)"""
+        for _ in range(3):
+            changed = False
+            for f in self.lin:
+                if not f.is_linear():
+                    continue
+                items = [(m[0], c) for m, c in f.terms.items() if m != ()]
+                if len(items) < 2 or len(items) > 6:
+                    continue
+                d = f.terms.get((), 0)
+                rngs = {x: self.atom_range(x) for x, _ in items}
+                for x, c in items:
+                    # c*x >= -(d + sum_{others} c_i x_i)  ; bound the others from above
+                    tot = d
+                    ok = True
+                    for y, cy in items:
+                        if y is x:
+                            continue
+                        lo, hi = rngs[y]
+                        b = hi if cy > 0 else lo
+                        if b is None:
+                            ok = False
+                            break
+                        tot += cy * b
+                    if not ok:
+                        continue
+                    lo0, hi0 = rngs[x]
+                    if c > 0:
+                        nb = -(tot // c)          # x >= ceil(-tot/c)
+                        if lo0 is None or nb > lo0:
+                            self.rng[x] = (nb, hi0)
+                            rngs[x] = (nb, hi0)
+                            changed = True
+                    else:
+                        nb = tot // (-c)          # x <= floor(tot/(-c))
+                        if hi0 is None or nb < hi0:
+                            self.rng[x] = (lo0, nb)
+                            rngs[x] = (lo0, nb)
+                            changed = True
+                    lo1, hi1 = rngs[x]
+                    if lo1 is not None and hi1 is not None and lo1 > hi1:
+                        return False
+            if not changed:
+                break
+        return True
+
     # ------------------------------------------------------------ entailment
     def entails_ge0(self, p, max_facts=3, max_coeff=3):
         """is p >= 0 implied?  interval arithmetic, then a bounded Farkas combination of the
@@ -193,14 +242,16 @@ class Facts:
         if lo is not None and lo >= 0:
             return ("range",)
         patoms = p.atoms()
-        cands = [f for f in self.lin if f.atoms() & patoms]
-        # one transitive step
+        direct = [f for f in self.lin if f.atoms() & patoms]
         more = set()
-        for f in cands:
+        for f in direct:
             more |= f.atoms()
-        cands = [f for f in self.lin if f.atoms() & (patoms | more)]
-        cands = cands[:12]
+        indirect = [f for f in self.lin if not (f.atoms() & patoms) and (f.atoms() & more)]
+        direct.sort(key=lambda f: -len(f.atoms() & patoms))
+        pool = direct + indirect
+        limits = {1: 40, 2: 14, 3: 9}
         for k in range(1, max_facts + 1):
+            cands = pool[:limits.get(k, 8)]
             for combo in itertools.combinations(range(len(cands)), k):
                 for lam in itertools.product(range(1, max_coeff + 1), repeat=k):
                     r = p
@@ -230,6 +281,26 @@ class Facts:
         if a is not None and a[0] == "eq" and not neg:
             q = atom_pred_poly(a)
             return self.entails_ge0(q - 1, 2, 2) is not None or self.entails_ge0(-q - 1, 2, 2) is not None
+        if a is not None:
+            return False
+        # small boolean combination (e.g. the disjunction of two overflow conditions): p is
+        # necessarily 0 if it vanishes under every assignment of its atoms that is still possible
+        ats = sorted(p.atoms(), key=repr)
+        if 2 <= len(ats) <= 4 and all(is_bool_atom(x) for x in ats):
+            poss = []
+            for x in ats:
+                vals = []
+                if not self.implied_false(Poly.atom(x)):
+                    vals.append(1)
+                if not self.implied_false(ONE - Poly.atom(x)):
+                    vals.append(0)
+                if not vals:
+                    return True
+                poss.append(vals)
+            for combo in itertools.product(*poss):
+                if p.subst(dict(zip(ats, combo))).const_value() != 0:
+                    return False
+            return True
         return False
 
 
